@@ -140,7 +140,16 @@ inline Py_ALWAYS_INLINE T DictGetItemAs(const py::handle& dict, const py::handle
     }
     return py::reinterpret_steal<T>(value);
 #else
-    return py::reinterpret_borrow<T>(PyDict_GetItem(dict.ptr(), key.ptr()));
+    // NOTE: `PyDict_GetItem()` suppresses the exceptions raised by `__hash__()` / `__eq__()` of the
+    // key and returns NULL for them as well as for a missing key.
+    PyObject* const value = PyDict_GetItemWithError(dict.ptr(), key.ptr());
+    if (value == nullptr) [[unlikely]] {
+        if (PyErr_Occurred() == nullptr) [[likely]] {
+            py::set_error(PyExc_KeyError, py::make_tuple(key));
+        }
+        throw py::error_already_set();
+    }
+    return py::reinterpret_borrow<T>(value);
 #endif
 }
 inline Py_ALWAYS_INLINE py::object DictGetItem(const py::handle& dict, const py::handle& key) {
